@@ -20,6 +20,8 @@ import (
 	"syscall"
 
 	"github.com/yuin/goldmark"
+	"github.com/yuin/goldmark/ast"
+	"github.com/yuin/goldmark/text"
 	"github.com/yuin/goldmark/util"
 )
 
@@ -64,7 +66,7 @@ func guarded(f func()) (faulted bool, what string) {
 }
 
 type c12Case struct {
-	Kind   string   `json:"kind"` // convert | util
+	Kind   string   `json:"kind"` // convert | util | accessors
 	Config mdConfig `json:"config,omitempty"`
 	Fn     string   `json:"fn,omitempty"`
 	Doc    rawDoc   `json:"doc"`
@@ -92,6 +94,31 @@ var c12UtilFns = map[string]func([]byte){
 	"FindEmailIndex":           func(b []byte) { util.FindEmailIndex(b) },
 }
 
+// c12Accessors parses the read-only source and then reads the tree the way a caller holding
+// the source does: every node's Text(source), every block's Lines().Value(source) and every
+// line segment's Value(source). Reading the tree with the source is part of "parsing and
+// rendering treat the source as read-only": an accessor that appends to a sub-slice of the
+// source stores into the caller's buffer just as the parser would.
+func c12Accessors(md goldmark.Markdown, ro []byte) {
+	doc := md.Parser().Parse(text.NewReader(ro))
+	_ = ast.Walk(doc, func(n ast.Node, entering bool) (ast.WalkStatus, error) {
+		if !entering {
+			return ast.WalkContinue, nil
+		}
+		_ = n.Text(ro)
+		if n.Type() != ast.TypeInline {
+			if l := n.Lines(); l != nil {
+				_ = l.Value(ro)
+				for i := 0; i < l.Len(); i++ {
+					seg := l.At(i)
+					_ = seg.Value(ro)
+				}
+			}
+		}
+		return ast.WalkContinue, nil
+	})
+}
+
 // c12Exec runs one case on a read-only copy; returns the frame-law record.
 func c12Exec(md goldmark.Markdown, cs c12Case) (rec map[string]interface{}, detail string) {
 	ro, release := roBytes([]byte(cs.Doc))
@@ -106,6 +133,8 @@ func c12Exec(md goldmark.Markdown, cs c12Case) (rec map[string]interface{}, deta
 				panic(err)
 			}
 		})
+	} else if cs.Kind == "accessors" {
+		faulted, what = guarded(func() { c12Accessors(md, ro) })
 	} else {
 		f := c12UtilFns[cs.Fn]
 		faulted, what = guarded(func() { f(ro[cs.From:cs.To]) })
@@ -131,13 +160,16 @@ func replayC12(c *Ctx, raw json.RawMessage) (bool, string) {
 		return false, err.Error()
 	}
 	var md goldmark.Markdown
-	if cs.Kind == "convert" {
+	if cs.Kind != "util" {
 		md = cs.Config.build()
 	}
 	rec, detail := c12Exec(md, cs)
 	if !judgeLawOne(rec) {
 		if cs.Kind == "util" {
 			return true, fmt.Sprintf("util.%s on bytes [%d:%d] of read-only %q: %s", cs.Fn, cs.From, cs.To, clip(string(cs.Doc), 200), detail)
+		}
+		if cs.Kind == "accessors" {
+			return true, fmt.Sprintf("Parse under %s of read-only %q, then Text(source) / Lines().Value(source) on every node: %s", cs.Config, clip(string(cs.Doc), 200), detail)
 		}
 		return true, fmt.Sprintf("Convert under %s of read-only %q: %s", cs.Config, clip(string(cs.Doc), 200), detail)
 	}
@@ -150,7 +182,7 @@ func runC12(c *Ctx) {
 		"observer = memory protection: the source lies at the end of a PROT_READ mapping followed by a PROT_NONE guard page; debug.SetPanicOnFault turns a store into a recoverable panic (a panic for any other reason in a conversion that C01 found total is also counted as a fault)",
 		"TLC/SANY evaluates FrameLaw of Meta.tla on the recorded (hash before, hash after, faulted) triples; Slots.tla provides the enumerated workload",
 	}
-	ev.Set("rule", "case = one Convert call (or one util call) on a read-only source; distinct = distinct (document, configuration) / (function, document, sub-slice); non-trivial = documents with Markdown-significant bytes / sub-slices with spare capacity behind them")
+	ev.Set("rule", "case = one Convert call (or one Parse followed by Text(source) / Lines().Value(source) on every node, or one util call) on a read-only source; distinct = distinct (document, configuration) / (function, document, sub-slice); non-trivial = documents with Markdown-significant bytes / sub-slices with spare capacity behind them")
 	// self-test of the observer: a deliberate store must be seen
 	{
 		ro, rel := roBytes([]byte("abc"))
@@ -192,6 +224,9 @@ func runC12(c *Ctx) {
 			cases = append(cases, c12Case{Kind: "convert", Config: cfgs[ci], Doc: rawDoc(d)})
 			caseMd = append(caseMd, ci)
 		}
+		// the tree read back with the source, under one configuration per document (rotating)
+		cases = append(cases, c12Case{Kind: "accessors", Config: cfgs[(di*7)%len(cfgs)], Doc: rawDoc(d)})
+		caseMd = append(caseMd, (di*7)%len(cfgs))
 	}
 	// util functions on sub-slices
 	rng := c.Rand("util")
@@ -227,7 +262,7 @@ func runC12(c *Ctx) {
 	var order []string
 	var utilCases []int
 	for i, cs := range cases {
-		if cs.Kind != "convert" {
+		if cs.Kind == "util" {
 			utilCases = append(utilCases, i)
 			continue
 		}
@@ -245,6 +280,10 @@ func runC12(c *Ctx) {
 		for _, i := range idx {
 			md := mds[caseMd[i]]
 			faulted, what := guarded(func() {
+				if cases[i].Kind == "accessors" {
+					c12Accessors(md, ro)
+					return
+				}
 				var sink discard
 				if err := md.Convert(ro, &sink); err != nil {
 					panic(err)
@@ -285,7 +324,9 @@ func runC12(c *Ctx) {
 		for i := range details {
 			cs := cases[i]
 			sig := "C12/convert"
-			if cs.Kind == "util" {
+			if cs.Kind == "accessors" {
+				sig = "C12/accessors"
+			} else if cs.Kind == "util" {
 				sig = "C12/util." + cs.Fn
 			}
 			if perSig[sig]++; perSig[sig] > 2 {
